@@ -1,15 +1,15 @@
-\* 2 jobs (j1: timeout, survives SIGTERM; j2: no timeout, Popen may fail): exhaustive safety
+\* TWO shutdown callers, 2 jobs (j1 never exits on its own, no time limit; j2 has a time limit): exhaustive safety
 SPECIFICATION Spec
 CONSTANTS
   Jobs = {j1, j2}
-  HasTimeout = {j1}
-  IgnoresTerm = {j1}
-  PopenMayFail = {j2}
+  HasTimeout = {j2}
+  IgnoresTerm = {}
+  PopenMayFail = {}
   PreFix = FALSE
   CoarseCancel = FALSE
-  Modes = {"none", "nowait", "wait"}
-  Modes2 = {"none"}
-  NeverExits = {}
+  Modes = {"nowait", "wait"}
+  Modes2 = {"nowait", "wait"}
+  NeverExits = {j1}
 VIEW View
 INVARIANTS TypeOK ResultAtMostOnce ResultConsistent TimeoutIsUnknown CancelCoversRegistered ClosedMeansDead
   QuiescentUnlessCbp CbpOnlyRegistered NoAcceptAfterShutdown QuiescentAfterReturnedWait
